@@ -73,7 +73,7 @@ func (r *Runner) execChmap(a []string) string {
 	if err != nil || !ok || !ok2 {
 		return "bad-op"
 	}
-	before := r.sketchObsQuiet(e)
+	before := r.obsBefore(e)
 	var res *ddsketch.DDSketch
 	var resx *ddsketch.DDSketchWithExactSummaryStatistics
 	okp, msg := guard(func() { res, resx = doChangeMapping(e, me.m, scale, "sparse", 0) })
